@@ -1,6 +1,7 @@
 #!/bin/bash
 # usage: tools_seed.sh <patch.diff> <vcgo prove args...> : apply a seeded change to /repo, run vcgo, undo.
 p=$1; shift
+if [ -n "$(git -C /repo status --short | grep -v "participle$")" ]; then echo "REFUSING: /repo has uncommitted changes"; exit 4; fi
 cd /repo && git apply "$p" || { git apply --3way "$p" || { echo "PATCH DOES NOT APPLY"; git checkout -- .; exit 3; }; }
 git -C /repo diff --stat | tail -1
 /verif/bin/vcgo prove "$@" 2>&1 | grep -E "FAILED|UNDECIDED|total" | cut -c1-260
